@@ -23,7 +23,7 @@ CHECKS = {
          "4/C08", TB + " Ground obligations are discharged by evaluation."),
  "C09": ("proof", "kio.index lookups executed symbolically over arbitrary keys/names/versions with the real maps as data: exactly the entry or the documented error; ground: every index entry resolves to the class with its coordinates, every module on disk is indexed, keys map one-to-one.",
          "4/C09", TB + " pkgutil.resolve_name trusted."),
- "C16": ("exploration", "BOUNDED with a proved core: the generator's decision functions (version matching, tag / nullability resolution, field filtering, class-variable lines, header choice) are proved by symbolic execution of their real bodies; the emission of modules is checked by running the real generator in a scratch tree on an enumerated domain of definitions and comparing every generated (definition, version) module - field by field and byte by byte for a populated instance - with an independent reading of the definition. Never reported as proved.",
+ "C16": ("exploration", "BOUNDED with a proved core: the generator's decision functions (version matching, tag / nullability resolution, field filtering, class-variable lines, header choice) are proved by symbolic execution of their real bodies, and its two finite tables (type annotation per primitive, implicit default written for a tagged field) are enumerated completely against independent tables; the emission of modules is checked by running the real generator in a scratch tree on an enumerated domain of definitions and comparing every generated (definition, version) module - field by field and byte by byte for a populated instance - with an independent reading of the definition. Never reported as proved.",
          "4/C16", "Bound: the enumerated definitions (seeded by VERIF_SEED); kio's naming/optional conventions are part of the expected model; the error-code table is copied, not generated. " + TB),
  "C17": ("proof", "Every function of kio.records.writers verified against the magic-2 batch layout for symbolic records (any number of records and headers, arbitrary sizes): derived header fields, lengths, CRC coverage (CRC uninterpreted), zig-zag varints, deltas; the independent-decoder clause is a bounded native run.",
          "4/C17", TB + " crc32c and max() under assumed contracts; preconditions: non-empty records, deltas within int32/int64, sizes within int32."),
